@@ -129,8 +129,8 @@ func Quote(decoded string) string {
 // ---------------------------------------------------------------------------------------
 // number tokens
 
-// AvoidZeroExp makes NumberTok skip the `0e1` spelling (a recorded known finding, judged in C10).
-var AvoidZeroExp = true
+// AvoidZeroExp makes NumberTok skip the `0e1` spelling (it was a recorded finding until ef2e152; nobody avoids it any more).
+var AvoidZeroExp = false
 
 // Avoided is called with a reason whenever a generator steers around a recorded finding.
 var Avoided func(reason string)
